@@ -100,10 +100,11 @@ Print Assumptions C07_T4_integer.
 
 (** T4, second half: string literals.  A lexically well-formed literal free of
     the root causes of [rc_lit] -- plain, language-tagged, typed with a wired
-    prefix (xsd: rdf: dt: geo: bound as wired) or with an <IRI> -- gets the
+    prefix (xsd: rdf: dt: geo: bound as wired) or with an <IRI>, whatever the
+    lexical form and the IRI contain -- gets the
     datatype the spec assigns to it; with the IRI, blank-node and integer cases
     this gives the object hypothesis of T1. *)
-From Shexer Require Import Proofs.TtlLiteral Proofs.TtlClean Proofs.TtlTokens Proofs.TtlScan Proofs.TtlCompose.
+From Shexer Require Import Proofs.TtlLiteral Proofs.TtlClean Proofs.TtlTokens Proofs.TtlScan Proofs.TtlObjects Proofs.TtlCompose.
 
 Theorem C07_T4_literal : forall e s lex sfx o,
   env_match e s -> okL e lex sfx = true -> sem_obj e (OLit lex sfx) = Some o ->
@@ -310,27 +311,6 @@ Proof.
   refute [L_ex; one_line exs exp (OLit (Str "1") (LTyped (ex "dt")))] [P_ex; one exs exp (OLit (Str "1") (LTyped (ex "dt")))].
 Qed.
 
-(** C07-F7: "xsd:" searched in the whole token *)
-Lemma C07_dt_hardwired_refuted : exists ls d, ~ full_statement ls d.
-Proof.
-  refute [L_ex; one_line exs exp (OLit (Str "xsd:foo") (LTyped (IAbs (Str "http://e/dt"))))]
-         [P_ex; one exs exp (OLit (Str "xsd:foo") (LTyped (IAbs (Str "http://e/dt"))))].
-Qed.
-
-(** C07-F8: '@' in the datatype IRI *)
-Lemma C07_lang_marker_refuted : exists ls d, ~ full_statement ls d.
-Proof.
-  refute [L_ex; one_line exs exp (OLit (Str "a") (LTyped (IAbs (Str "http://e/a@b"))))]
-         [P_ex; one exs exp (OLit (Str "a") (LTyped (IAbs (Str "http://e/a@b"))))].
-Qed.
-
-(** C07-F9: escaped quote followed by ^^ inside the lexical form *)
-Lemma C07_typed_marker_refuted : exists ls d, ~ full_statement ls d.
-Proof.
-  refute [L_ex; one_line exs exp (OLit (Str "a\""^^b") (LTyped (IAbs (Str "http://e/dt"))))]
-         [P_ex; one exs exp (OLit (Str "a\""^^b") (LTyped (IAbs (Str "http://e/dt"))))].
-Qed.
-
 (** C07-F13: the IRI of @prefix is not resolved against the base *)
 Lemma C07_dir_unresolved_refuted : exists ls d, ~ full_statement ls d.
 Proof.
@@ -386,6 +366,26 @@ Proof. regress [L_ex; LToks [] [] (Some (Str " a "" #b")); toks_line [ASubj exs;
               LToks [] [(AObj (OLit (Str "a") LPlain), sp); (AComma, sp)] (Some (Str " note \"""));
               toks_line [AObj (OLit (Str "") LPlain); AComma; AObj (OLit (Str "b #c") LPlain); ADot]]
              [P_ex; IGrp (Group exs [(exp, [OLit (Str "a") LPlain; OLit (Str "") LPlain; OLit (Str "b #c") LPlain])])]. Qed.
+
+(** <commit-B>: the literal kind is read from what follows the last quote: "xsd:" in the
+    lexical form, '@' in the datatype IRI, quote-^^ in the lexical form no longer matter *)
+Example C07_literal_suffix_regression :
+  regression [L_ex; toks_line [ASubj exs; APred exp; AObj (OLit (Str "xsd:foo") (LTyped (IAbs (Str "http://e/dt")))); AComma;
+                               AObj (OLit (Str "a") (LTyped (IAbs (Str "http://e/a@b")))); AComma;
+                               AObj (OLit (Str "a\""^^b") (LTyped (IAbs (Str "http://e/dt")))); AComma;
+                               AObj (OLit (Str "^^") LPlain); ADot]]
+             [P_ex; IGrp (Group exs [(exp, [OLit (Str "xsd:foo") (LTyped (IAbs (Str "http://e/dt")));
+                                            OLit (Str "a") (LTyped (IAbs (Str "http://e/a@b")));
+                                            OLit (Str "a\""^^b") (LTyped (IAbs (Str "http://e/dt")));
+                                            OLit (Str "^^") LPlain])])].
+Proof. regress [L_ex; toks_line [ASubj exs; APred exp; AObj (OLit (Str "xsd:foo") (LTyped (IAbs (Str "http://e/dt")))); AComma;
+                               AObj (OLit (Str "a") (LTyped (IAbs (Str "http://e/a@b")))); AComma;
+                               AObj (OLit (Str "a\""^^b") (LTyped (IAbs (Str "http://e/dt")))); AComma;
+                               AObj (OLit (Str "^^") LPlain); ADot]]
+             [P_ex; IGrp (Group exs [(exp, [OLit (Str "xsd:foo") (LTyped (IAbs (Str "http://e/dt")));
+                                            OLit (Str "a") (LTyped (IAbs (Str "http://e/a@b")));
+                                            OLit (Str "a\""^^b") (LTyped (IAbs (Str "http://e/dt")));
+                                            OLit (Str "^^") LPlain])])]. Qed.
 
 (** reject side: texts outside the dialect that are read without any error *)
 Definition no_error (text : str) : bool := match snd (read_ttl text) with Ok _ => true | Err _ => false end.
